@@ -198,8 +198,15 @@ def run(repo, rep, tier):
                     bad = f"`{U(n)[:60]}` is a rounding floating point function"
                 elif nm == "float" and n.args:
                     a = n.args[0]
+                    def _text(e):
+                        """a decimal text: literal, f-string, str()/format()/join() result, or a concatenation of those"""
+                        if isinstance(e, ast.BinOp) and isinstance(e.op, ast.Add):
+                            return _text(e.left) and _text(e.right)
+                        if isinstance(e, ast.Constant):
+                            return isinstance(e.value, str)
+                        return isinstance(e, ast.JoinedStr) or (isinstance(e, ast.Call) and last_attr(e.func) in ("str", "format", "join", "repr"))
                     exact_src = isinstance(a, (ast.JoinedStr, ast.Constant)) or (isinstance(a, ast.Call) and last_attr(a.func) in ("str", "format", "Decimal")) \
-                        or isinstance(a, ast.Name)
+                        or isinstance(a, ast.Name) or _text(a)
                     # float(<name>) is accepted only as the final conversion of a Decimal/str value (returned directly)
                     if isinstance(a, ast.Name):
                         exact_src = isinstance(getattr(n, "_parent", None), ast.Return) and _name_is_exact(f, a.id)
@@ -319,10 +326,31 @@ def check_decimal128(repo, rep):
         ok_src = diff.is_const() and diff.c == BIAS
     # ---- reader: exponent
     jret = [n for n in body_walk(uf) if isinstance(n, ast.Return) and n.value is not None]
-    fv = [x for x in ast.walk(jret[-1].value) if isinstance(x, ast.FormattedValue)] if jret else []
-    if len(fv) != 2:
-        raise AnalysisError("_unpack_decimal128: float(f'{mantissa}E{exp}') not found")
-    m_expr, e_expr = fv[0].value, fv[1].value
+    def text_parts(e):
+        """a decimal text built as f-string, concatenation or str() calls: [('s', literal) | ('e', expression node)]"""
+        if isinstance(e, ast.Constant) and isinstance(e.value, str):
+            return [("s", e.value)]
+        if isinstance(e, ast.JoinedStr):
+            out = []
+            for v in e.values:
+                if isinstance(v, ast.Constant):
+                    out.append(("s", v.value))
+                elif isinstance(v, ast.FormattedValue) and v.format_spec is None and v.conversion in (-1, 115):
+                    out.append(("e", v.value))
+                else:
+                    return None
+            return out
+        if isinstance(e, ast.BinOp) and isinstance(e.op, ast.Add):
+            a, b = text_parts(e.left), text_parts(e.right)
+            return None if a is None or b is None else a + b
+        if isinstance(e, ast.Call) and call_name(e) == "str" and len(e.args) == 1 and not e.keywords:
+            return [("e", e.args[0])]
+        return None
+    fl = [c for c in ast.walk(jret[-1].value) if isinstance(c, ast.Call) and call_name(c) == "float" and len(c.args) == 1] if jret else []
+    parts = text_parts(su.at(jret[-1], fl[0].args[0]) if isinstance(fl[0].args[0], ast.Name) else fl[0].args[0]) if fl else None
+    if not parts or [k for k, _ in parts] != ["e", "s", "e"] or parts[1][1] not in ("E", "e"):
+        raise AnalysisError("_unpack_decimal128: the value returned is not float(<mantissa digits> 'E' <exponent>) of a decimal text")
+    m_expr, e_expr = parts[0][1], parts[2][1]
     e_sub = su.at(jret[-1], e_expr)
     el = None
     if isinstance(e_sub, ast.BinOp) and isinstance(e_sub.op, ast.Sub) and try_const(e_sub.right, env) == BIAS:
@@ -362,7 +390,20 @@ def check_decimal128(repo, rep):
         store = None
         straight = all(isinstance(b, (ast.Assign, ast.AugAssign)) for b in loop.body)
         if mvar and test_ok and straight:
+            body_ = []
             for b in loop.body:
+                # ``q, r = divmod(m, 2**k)`` is ``r = m & (2**k - 1)`` and ``q = m >> k`` (m is a non-negative int here)
+                if isinstance(b, ast.Assign) and len(b.targets) == 1 and isinstance(b.targets[0], ast.Tuple) and len(b.targets[0].elts) == 2 and isinstance(b.value, ast.Call) \
+                        and call_name(b.value) == "divmod" and len(b.value.args) == 2:
+                    d = try_const(b.value.args[1], env)
+                    if isinstance(d, int) and d > 1 and d & (d - 1) == 0:
+                        qt, rt = b.targets[0].elts
+                        m_ = b.value.args[0]
+                        body_.append(ast.copy_location(ast.Assign(targets=[rt], value=ast.BinOp(left=m_, op=ast.BitAnd(), right=ast.Constant(d - 1))), b))
+                        body_.append(ast.copy_location(ast.Assign(targets=[qt], value=ast.BinOp(left=m_, op=ast.RShift(), right=ast.Constant(d.bit_length() - 1))), b))
+                        continue
+                body_.append(b)
+            for b in body_:
                 if isinstance(b, ast.Assign) and isinstance(b.targets[0], ast.Subscript) and U(b.targets[0].value) == buf:
                     store = (subst(b.targets[0].slice, lenv), subst(b.value, lenv))
                 elif isinstance(b, ast.AugAssign) and isinstance(b.target, ast.Name):
@@ -387,8 +428,21 @@ def check_decimal128(repo, rep):
         loop = rl[0]
         dom = loop_domain(loop, uf, env)
         acc = loop.body[0].targets[0].id
+        step_value = loop.body[0].value
+        # ``for b in reversed(buf[:K])`` / ``for b in buf[K-1::-1]``: the bytes K-1 .. 0, named by the element
+        it = loop.iter
+        seq_k = None
+        if isinstance(it, ast.Call) and call_name(it) == "reversed" and len(it.args) == 1 and isinstance(it.args[0], ast.Subscript) and U(it.args[0].value) == ubuf \
+                and isinstance(it.args[0].slice, ast.Slice) and it.args[0].slice.lower is None and it.args[0].slice.step is None:
+            seq_k = try_const(it.args[0].slice.upper, env)
+        elif isinstance(it, ast.Subscript) and U(it.value) == ubuf and isinstance(it.slice, ast.Slice) and try_const(it.slice.step, env) == -1 and it.slice.upper is None:
+            lo_ = try_const(it.slice.lower, env)
+            seq_k = lo_ + 1 if isinstance(lo_, int) else None
+        if isinstance(seq_k, int) and isinstance(loop.target, ast.Name):
+            dom = {"var": "__i", "lo": Lin(0), "hi": Lin(seq_k), "step": -1, "elem": loop.target.id, "seq": None}
+            step_value = subst(step_value, {loop.target.id: ast.Subscript(value=ast.Name(id=ubuf, ctx=ast.Load()), slice=ast.Name(id="__i", ctx=ast.Load()), ctx=ast.Load())})
         if dom and dom["var"]:
-            rb = bv(loop.body[0].value, env, byte_arrays={ubuf})
+            rb = bv(step_value, env, byte_arrays={ubuf})
             src = f"{ubuf}[{dom['var']}]"
             horner = all(rb.bits.get(p) == (src, p) for p in range(8)) and all(rb.bits.get(p + 8) == (acc, p) for p in range(64)) and not rb.ones
             init = bv(su.at(loop, ast.Name(id=acc, ctx=ast.Load())), env, byte_arrays={ubuf})
@@ -482,6 +536,30 @@ VARIANTS = [
     M("int-before-bool", "cell.py", "        elif isinstance(value, bool):\n            cell = BoolCell(row, col, value)\n        elif isinstance(value, int):\n            cell = NumberCell(row, col, value)\n",
       "        elif isinstance(value, int):\n            cell = NumberCell(row, col, value)\n        elif isinstance(value, bool):\n            cell = BoolCell(row, col, value)\n", "C01.R1"),
     M("date-single-precision", "cell.py", 'value = pack("<d", float(date_delta.total_seconds()))', 'value = pack("<f", float(date_delta.total_seconds()))', "C01.R2"),
+    T("decimal128-divmod-reversed-forms", "cell.py", """        buffer[i] = mantissa & 0xFF
+        i += 1
+        mantissa >>= 8
+""", """        mantissa, buffer[i] = divmod(mantissa, 256)
+        i += 1
+"""),
+    T("decimal128-reader-reversed-slice", "cell.py", """    for i in range(13, -1, -1):
+        mantissa = mantissa * 256 + buffer[i]
+""", """    for byte in reversed(buffer[:14]):
+        mantissa = mantissa * 256 + byte
+"""),
+    M("decimal128-reader-one-byte-short", "cell.py", """    for i in range(13, -1, -1):
+        mantissa = mantissa * 256 + buffer[i]
+""", """    for byte in reversed(buffer[:13]):
+        mantissa = mantissa * 256 + byte
+""", "C01.R3"),
+    M("decimal128-writer-divmod-128", "cell.py", """        buffer[i] = mantissa & 0xFF
+        i += 1
+        mantissa >>= 8
+""", """        mantissa, buffer[i] = divmod(mantissa, 128)
+        i += 1
+""", "C01.R3"),
+    T("decimal128-text-by-concatenation", "cell.py", '    return float(f"{mantissa}E{exp}")', '    return float(str(mantissa) + "E" + str(exp))'),
+    M("decimal128-text-exponent-swapped", "cell.py", '    return float(f"{mantissa}E{exp}")', '    return float(str(exp) + "E" + str(mantissa))', "C01.R3"),
     M("revert-fix-unpack-float-pow", "cell.py", '    return float(f"{mantissa}E{exp}")', "    value = mantissa * 10**exp\n    return float(value)", "C01.R3"),
     M("revert-fix-pack-division", "cell.py", "        mantissa >>= 8", "        mantissa = int(mantissa / 256)", "C01.R3"),
     M("decimal-of-float-direct", "cell.py", "dec = Decimal(repr(value)) if isinstance(value, float) else Decimal(value)", "dec = Decimal(value)", "C01.R3"),
